@@ -89,6 +89,24 @@ class ADIWorld(World):
             return PyVec(list(self.spacing))
         if nm == "shape" and "grid" in (callee.cls or ""):
             return PyVec(list(self.shape))
+        if nm in ("nodes_status", "nodes_status_impl") and "grid" in (callee.cls or ""):
+            # the property holds "regardless of the grid's node statuses": the model grid has
+            # fixed-value (1) and fixed-gradient (2) nodes in its interior
+            st = NDArr(tuple(self.shape), 0, "nodes_status")
+            if len(self.shape) == 2 and self.shape[0] > 2 and self.shape[1] > 2:
+                st.data[(1, 1)] = 1
+                if self.shape[1] > 3:
+                    st.data[(1, 2)] = 2
+            args = call.get("a", [])
+            if args:
+                return st.get(tuple(it.rv(it.eval(a, frame)) for a in args))
+            return st
+        return NOT_HANDLED
+
+    def default_value(self, it, ts):
+        base = ts.replace("const ", "").strip()
+        if base.startswith("xt::xtensor_container<") or base.startswith("xt::xarray_container<"):
+            return NDArr((0,), None, "xt-container")
         return NOT_HANDLED
 
     def external(self, it, fn, call, frame):
@@ -102,6 +120,10 @@ class ADIWorld(World):
             return it.rv(it.eval(args[i], frame))
         if call.get("k") == "construct":
             ts = fn.type(call.get("t"))
+            if ts.replace("const ", "").startswith("xt::svector<") and args:
+                v = V(0)
+                if isinstance(v, (list, PyVec)):
+                    return PyVec(list(v))
             if (ts.startswith("xt::xtensor_container<") or ts.startswith("xt::xarray_container<")) and len(args) == 1:
                 v = V(0)
                 if is_arr(v):
@@ -129,6 +151,16 @@ class ADIWorld(World):
         if bn == "xt::empty_like":
             return NDArr(V(0).shape, None, "xt::empty_like")
         if bn == "xt::same_shape":
+            return True
+        if bn in ("xt::allclose", "xt::isclose") and len(args) >= 2:
+            a0, a1 = V(0), V(1)
+            vals = [a0.get(i) for i in a0.indices()] if is_arr(a0) else [a0]
+            ref = [a1.get(i) for i in a1.indices()] if is_arr(a1) else [a1] * len(vals)
+            if len(ref) == len(vals) and all(not isinstance(x, Uninit) and not isinstance(y, Uninit) and
+                                             Dual.of(x).same(Dual.of(y)) for x, y in zip(vals, ref)):
+                return True
+            # a tolerance test on symbolic magnitudes is undetermined: values that differ can still pass
+            # it (absolute tolerance, tiny magnitudes) -- the model takes that outcome
             return True
         if bn.startswith("xt::operator") and op in ("+", "-", "*", "/"):
             vals = [V(i) for i in range(len(args))]
@@ -276,6 +308,8 @@ def run(db, chk):
              "interior for an array, the two agreeing for a uniform array (symbolic identities)", min_instances=3)
     chk.rule("C14-D4", "after every sequence of three set_k_coef calls (two scalars, two arrays) on the same "
              "object the factor tables and k_coef() are those of the diffusivity set last", min_instances=64)
+    chk.rule("C14-D5", "constructor -> erode() end to end on a grid with interior fixed-value / fixed-gradient "
+             "nodes: the result is the scheme solved directly, whatever the node statuses", min_instances=2)
     chk.rule("C14-D2a", "Thomas solver: the returned vector satisfies the tridiagonal system (sizes 3..8, thorough 3..10, identity end rows as produced by the sweep)",
              min_instances=4)
     chk.rule("C14-D2b", "line sweep: assembled systems = implicit Peaceman-Rachford half step with "
@@ -412,6 +446,47 @@ def run(db, chk):
                    where=setters[moves[seq[-1]][0]].ploc, function=setters[moves[seq[-1]][0]].bn,
                    construct="setter-history", detail="; ".join(bad[:2])[:300], extra={"unit": uname},
                    sample=(n_sc % 7 == 0))
+
+        # ------------------------------------------------------------------ D5: through the constructor
+        er = fns["erode"][0]
+        ctors = [f for f in unit.fns.values() if f.cls == ADI and f.is_ctor and len(f.params) >= 2]
+        arec = [r for r in unit.records if r["bn"] == ADI]
+        if not ctors or not arec:
+            raise AnalysisBroken("C14: diffusion_adi_eroder constructors / record not found in %s" % uname)
+        for ctor in ctors:
+            ktype = ctor.type(ctor.params[1]["t"])
+            is_array = "xt::" in ktype
+            for (nr, nc) in ((3, 4), (4, 4)):
+                n_sc += 1
+                E = fresh("e", (nr, nc), 1.0)
+                karr = sym_array("k", (nr, nc), lambda r, c: 0.2 + 0.03 * r + 0.05 * c)
+                Ksc = Dual.sym("K", 0.3)
+                it = Interp(ADIWorld([dy, dx], [nr, nc]), max_steps=5000000)
+                bad = []
+                res = None
+                try:
+                    this = it.new_obj(ctor, arec[0])
+                    this.fields["m_grid"] = Sym("grid", "g")
+                    it.call_fn(ctor, this, [Sym("grid", "g"), karr.copy() if is_array else Ksc, None])
+                    res = it.rv(it.call_fn(er, this, [E, dt]))
+                except (ThrowEx, UninitUse, ShapeMismatch, ndsym.IndexOutside) as ex:
+                    bad.append("%s" % ex)
+                if res is not None:
+                    FR, FC = this.fields["m_factors_row"], this.fields["m_factors_col"]
+                    ref = reference_step(lambda r, c: E.get((r, c)), lambda j, r, c: FR.get((j, r, c)),
+                                         lambda j, r, c: FC.get((j, r, c)), nr, nc, dt)
+                    for r in range(nr):
+                        for c in range(nc):
+                            got = res.get((r, c))
+                            border = r in (0, nr - 1) or c in (0, nc - 1)
+                            want = Dual.of(0) if border else B("-", E.get((r, c)), ref[(r, c)])
+                            if isinstance(got, Uninit) or not same(got, want):
+                                bad.append("erosion(%d,%d) differs from the directly solved scheme (the grid has interior "
+                                           "fixed-value / fixed-gradient nodes, which must not matter)" % (r, c))
+                chk.ob("C14-D5", "[%s] constructed with a %s diffusivity on a %dx%d grid whose interior holds fixed-value "
+                       "and fixed-gradient nodes: erode() end to end" % (uname, "array" if is_array else "scalar", nr, nc),
+                       not bad, where=ctor.ploc, function=ctor.bn, construct="ctor-end-to-end",
+                       detail="; ".join(bad[:2])[:400], extra={"unit": uname})
 
         # ------------------------------------------------------------------ D2a: Thomas solver
         st = fns["solve_tridiagonal"][0]
